@@ -1,5 +1,35 @@
+import ast
+import time
 from .. import deductive
+from .. import frontend
+from ..vc import solver as S
+
+
+def domain_iter_report():
+    """Factor.condition iterates `self.domain`; its contract reads that as the attribute sequence in order.  Decided on the text of
+    Domain.__iter__: it returns the iterator of self.attrs (any other body leaves the wiring UNDECIDED, never a violation)."""
+    rel, q = 'src/mbi/domain.py', 'Domain.__iter__'
+    r = deductive.FunctionReport(rel, q + ' [iteration order is the attribute order]')
+    t0 = time.time()
+    try:
+        fn, _src, sha = frontend.get_function(rel, q)
+        body = [s for s in fn.body if not (isinstance(s, ast.Expr) and isinstance(getattr(s, 'value', None), ast.Constant))]
+        text = ast.unparse(body[0]).replace(' ', '') if len(body) == 1 else ''
+        ok = text in ('returnself.attrs.__iter__()', 'returniter(self.attrs)')
+        ob = S.Obligation('%s::%s/returns-the-iterator-of-self.attrs' % (rel, q), [], None, function='%s::%s' % (rel, q), kind='wiring')
+        ob.verdict = 'discharged' if ok else 'unknown'
+        ob.backend = 'syntactic (AST match)'
+        ob.seconds = 0.0
+        ob.reason = '' if ok else 'body is not `return self.attrs.__iter__()`: %s' % text[:80]
+        ob.meta = {'base': ob.name}
+        r.obligations.append(ob)
+        r.sha = sha
+    except frontend.MissingAnchor as e:
+        r.undecided = 'anchor missing: %s' % e
+    r.vacuity = []
+    r.seconds = time.time() - t0
+    return r
 
 
 def run(tier):
-    return deductive.verify_module('factor', nproc=14) + [deductive.lemma_report()]
+    return deductive.verify_module('factor', nproc=14) + [deductive.lemma_report(), domain_iter_report()]
